@@ -8,6 +8,7 @@ import Props.C07
 #print axioms SpyneModel.Props.C07.message_porttype_binding_refs_closed
 #print axioms SpyneModel.Props.C07.schema_refs_closed
 #print axioms SpyneModel.Props.C07.header_parts_resolve
+#print axioms SpyneModel.Props.C07.definitions_unique
 #print axioms SpyneModel.Props.C07.wsdl_closed
 #print axioms SpyneModel.Props.C07.prefixes_injective
 #print axioms SpyneModel.Props.C07.ops_exactly_once
@@ -16,3 +17,4 @@ import Props.C07
 #print axioms SpyneModel.Props.C07.header_ref_witness
 #print axioms SpyneModel.Props.C07.porttype_witness
 #print axioms SpyneModel.Props.C07.fault_namespace_witness
+#print axioms SpyneModel.Props.C07.message_dedup_witness
